@@ -119,6 +119,28 @@ theorem C03_fragment_definition_targets (S : Schema) (D : Doc) (h : checkOp S D 
     simp only [ht] at hb
     cases hk : t.kind <;> simp_all [directFields]
 
+/-! ### directives on operations and variable definitions (part of 5.7.1 – 5.7.3) -/
+
+/-- 5.7.1 – 5.7.3 on the definition-level directive sites of operations: if the checker reports nothing, the
+    directives applied to every operation and to every variable definition are defined, allowed at that
+    location, and not repeated unless repeatable -/
+theorem C03_directives_on_operations (S : Schema) (D : Doc) (h : checkOp S D = []) :
+    ∀ o ∈ Valid.ops D, ∀ site ∈ defDirSites (.op o), dirSiteOk S site := by
+  intro o ho site hs
+  have hmem : ExecDef.op o ∈ D := by
+    simp only [Valid.ops, List.mem_filterMap] at ho
+    obtain ⟨d, hd, hdo⟩ := ho
+    cases d <;> simp at hdo
+    subst hdo; exact hd
+  obtain ⟨_, hb⟩ := checkDefs_mem D [] h _ hmem
+  obtain ⟨_, _, hdirs, hv, _⟩ := checkOperation_nil (by simpa [defBody] using hb)
+  simp only [defDirSites, List.mem_cons, List.mem_map] at hs
+  rcases hs with rfl | ⟨v, hv', rfl⟩
+  · have : Valid.opLocation o.kind = CheckOp.opLocation o.kind := by cases o.kind <;> rfl
+    rw [this]
+    exact dirSiteOk_of_checkDirectives hdirs
+  · exact dirSiteOk_of_checkDirectives (checkVariablesAux_dirs o.vars [] hv v hv')
+
 /-! ### conjunction -/
 
 /-- the rules whose soundness theorem is proved in this file -/
@@ -161,7 +183,7 @@ theorem C03_rule_5_5_1_3 : checkOp S D = [] → rule_5_5_1_3 S D = true     -- (
 theorem C03_rule_5_5_2_1 : checkOp S D = [] → rule_5_5_2_1 S D = true     -- spread target defined
 theorem C03_rule_5_5_2_2 : checkOp S D = [] → rule_5_5_2_2 S D = true     -- no fragment cycles
 theorem C03_rule_5_5_2_3 : SchemaValid S → checkOp S D = [] → rule_5_5_2_3 S D = true -- spread possible
-theorem C03_rule_5_7_1   : checkOp S D = [] → rule_5_7_1 S D = true       -- directives defined
+theorem C03_rule_5_7_1   : checkOp S D = [] → rule_5_7_1 S D = true       -- directives defined (operation / variable-definition sites: proved above)
 theorem C03_rule_5_7_2   : checkOp S D = [] → rule_5_7_2 S D = true       -- directives in valid locations
 theorem C03_rule_5_7_3   : checkOp S D = [] → rule_5_7_3 S D = true       -- directives unique per location
 theorem C03_accepts_only_valid : SchemaValid S → checkOp S D = [] → ∀ r ∈ ImplementedRules, Holds r S D
